@@ -95,6 +95,25 @@ def pUpAssign : P (Nat × UpSrc) := fun cs =>
   | some (c, ':' :: 'l' :: r) => (pVal r).map fun (v, r') => ((c, .lit v), r')
   | _ => none
 
+/-- order item := col ('a' | 'd') -/
+def pOrdItem : P (Nat × Bool) := fun cs =>
+  match pNat cs with
+  | some (c, 'a' :: r) => some ((c, false), r)
+  | some (c, 'd' :: r) => some ((c, true), r)
+  | _ => none
+
+/-- 'o' k ':' item* 'n' lim '.' -/
+def pOrdLim : P (List (Nat × Bool) × Nat) := fun cs =>
+  match cs with
+  | 'o' :: r => match pNat r with
+    | some (k, ':' :: r1) => match pMany pOrdItem k r1 with
+      | some (items, 'n' :: r2) => match pNat r2 with
+        | some (lim, '.' :: r3) => some ((items, lim), r3)
+        | _ => none
+      | _ => none
+    | _ => none
+  | _ => none
+
 def pArgs : P Args := fun cs =>
   match cs with
   | 'G' :: r => match pNat r with
@@ -112,6 +131,16 @@ def pStmt : P (Stmt × Args) := fun cs =>
         | none => none
       | _ => none
     | 'D' :: r => (pCond (r.length + 2) r).map fun (w, r1) => (.delete w, r1)
+    | 'W' :: r => match pNat r with          -- UPDATE … ORDER BY … LIMIT
+      | some (n, ':' :: r1) => match pMany pSet n r1 with
+        | some (sets, r2) => match pCond (r2.length + 2) r2 with
+          | some (w, r3) => (pOrdLim r3).map fun ((ord, lim), r4) => (.updateLim sets w ord lim, r4)
+          | none => none
+        | none => none
+      | _ => none
+    | 'K' :: r => match pCond (r.length + 2) r with   -- DELETE … ORDER BY … LIMIT
+      | some (w, r1) => (pOrdLim r1).map fun ((ord, lim), r2) => (.deleteLim w ord lim, r2)
+      | none => none
     | 'X' :: r => match pNat r with
       | some (nr, ':' :: r1) => match pNat r1 with
         | some (nc, ':' :: r2) => (pMany (pMany pExpr nc) nr r2).map fun (rows, r3) => (.insert rows, r3)
